@@ -158,7 +158,9 @@ def _block(ss: list[dict]) -> list:
 def to_static(p: dict, resolve: Callable[[str], str | None] | None = None, ssbscript: bool = False) -> dict:
     return {"imports": [(resolve(i) if resolve else None) for i in p.get("imports", [])],
             "macros": [{"name": m["name"], "vars": m["params"], "body": _block(m["body"])} for m in p.get("macros", [])],
-            "routines": [None if r["body"] is None else _block(r["body"]) for r in p["routines"]],
+            "routines": [{"id": None if r["kind"] == "coro" else r["id"],
+                          "fixed": r["kind"] == "for" and r["target"]["k"] == "dec",
+                          "body": None if r["body"] is None else _block(r["body"])} for r in p["routines"]],
             "ssbscript": ssbscript}
 
 
@@ -601,8 +603,8 @@ def m_order_probe(p: dict, r: random.Random, routine_only: bool = False) -> dict
 
 
 def m_label_only_routine(p: dict, r: random.Random, routine_only: bool = False) -> dict | None:
-    """a routine made of calls of macros whose expansion holds labels only (strip_last_label crashes on the pinned tree),
-    and near misses that compile: a label or an operation written in the routine itself, a macro with a `return`"""
+    """a routine made of calls of macros whose expansion holds labels only (strip_last_label crashed on the pinned tree;
+    compiles to an empty routine now), and near misses: a label or an operation written in the routine itself, a macro with a `return`"""
     lm = {"name": fresh("lonly"), "params": [], "body": [{"t": "label", "name": fresh("ll")} for _ in range(r.choice([1, 1, 2]))]}
     p.setdefault("macros", []).append(lm)
     callee = lm
@@ -631,6 +633,38 @@ def m_label_only_routine(p: dict, r: random.Random, routine_only: bool = False) 
     return {"where": f"r{len(p['routines']) - 1}", "variant": variant}
 
 
+def m_bad_routine_id(p: dict, r: random.Random, routine_only: bool = False) -> dict | None:
+    """a routine id that is negative or leaves a gap (ids count up from 0, a coroutine takes the previous id + 1)"""
+    rs = p["routines"]
+    n = len(rs)
+    defs = [i for i, x in enumerate(rs) if x["kind"] != "coro"]
+    v = r.random()
+    if defs and v < 0.3:
+        rs[defs[0]]["id"] = r.choice([-1, -2, rs[defs[0]]["id"] + 1, n + 3])
+        variant = "first_def"
+    elif defs and v < 0.6:
+        i = defs[-1]
+        rs[i]["id"] = r.choice([-1, i + 1, i + 2, 4000])
+        variant = "last_def"
+    else:
+        rs.append({"kind": "def", "id": r.choice([-1, n + 1, n + 2, 99999]), "body": [_plain(r)]} if r.random() < 0.7 else
+                  {"kind": "for", "id": r.choice([-1, n + 1]), "tkind": "actor", "target": {"k": "int", "v": 1}, "legacy": False, "body": [_plain(r)]})
+        variant = "appended"
+    return {"variant": variant}
+
+
+def m_decimal_routine_target(p: dict, r: random.Random, routine_only: bool = False) -> dict | None:
+    cand = [x for x in p["routines"] if x["kind"] != "coro"]
+    if not cand:
+        return None
+    x = r.choice(cand)
+    x["kind"] = "for"
+    x.setdefault("tkind", r.choice(["actor", "object", "performer"]))
+    x["legacy"] = r.random() < 0.3
+    x["target"] = {"k": "dec", "v": r.choice(["1.5", ".5", "-2.25", "0.0", "12.0"])}
+    return {"id": x["id"]}
+
+
 # shapes named by the property text
 MUTATORS: dict[str, Callable[..., dict | None]] = {
     "break_outside_case": m_break_outside,
@@ -653,6 +687,8 @@ EXTRA_MUTATORS: dict[str, Callable[..., dict | None]] = {
     "inline_context_inside_with": m_inline_ctx_in_with,
     "collect_order_probe": m_order_probe,
     "routine_of_label_only_macro_calls": m_label_only_routine,
+    "routine_id_negative_or_gap": m_bad_routine_id,
+    "decimal_routine_target": m_decimal_routine_target,
 }
 ALL_MUTATORS = dict(MUTATORS, **EXTRA_MUTATORS)
 
@@ -751,7 +787,7 @@ def gen_world(r: random.Random, kind: str) -> dict:
         expect = True
     elif kind == "import_of_directory":
         files = {"main.exps": _main(r, [r.choice([".", "./", "./sub", ""])], []), "sub": {"dir": True}}
-        modelled = False
+        expect = True
     else:
         raise ValueError(kind)
     return {"kind": kind, "files": files, "root": "main.exps", "lookup": lookup, "expect_reject": expect, "modelled": modelled}
@@ -791,7 +827,7 @@ def world_static(w: dict) -> dict:
         if isinstance(f, dict) and f.get("dir"):
             continue
         if isinstance(f, dict) and "text" in f:
-            world.append([nm, {"imports": [], "macros": [], "routines": [[["op", False]]], "ssbscript": bool(f.get("ssbscript"))}])
+            world.append([nm, {"imports": [], "macros": [], "routines": [{"id": 0, "fixed": False, "body": [["op", False]]}], "ssbscript": bool(f.get("ssbscript"))}])
         else:
             world.append([nm, to_static(f, resolver(nm))])
     return {"world": world, "root": w["root"]}
